@@ -39,7 +39,7 @@ pub enum Shape {
 #[derive(Serialize, Deserialize, Clone, Debug, PartialEq)]
 pub enum Fault {
     /// consumer takes k items, idles `idle` ticks, then drops the iterator
-    Drop { k: usize, idle: u16 },
+    Drop { k: usize, idle: u32 },
     /// the processing function panics on item j; consumer stalls `stall` ticks after each item
     FnPanic { j: usize, stall: u16 },
     /// the upstream iterator panics inside next() for item j (ticket lock held)
@@ -77,7 +77,7 @@ pub fn grid() -> Vec<(Shape, u8, Option<usize>, Fault)> {
     let ups = [Some(BOUNDED_N), None];
     // ---- drop cells
     for k in 0..=8usize {
-        for idle in [0u16, 200] {
+        for idle in [0u32, 200] {
             for n in ups {
                 for w in 0..=4u8 {
                     g.push((Shape::Pipe, w, n, Fault::Drop { k, idle }));
@@ -100,9 +100,20 @@ pub fn grid() -> Vec<(Shape, u8, Option<usize>, Fault)> {
         }
         g.push((Shape::Buffered(2), 0, None, Fault::Drop { k, idle: 40 }));
     }
+    // ---- a consumer that pauses for half a minute of virtual time: anything that reads ahead
+    //      "a little every so often" shows up
+    for k in [0usize, 2] {
+        for w in [0u8, 2] {
+            g.push((Shape::Pipe, w, None, Fault::Drop { k, idle: 3_000_000 }));
+            g.push((Shape::PipeBuffered(1), w, None, Fault::Drop { k, idle: 3_000_000 }));
+        }
+        g.push((Shape::Buffered(2), 0, None, Fault::Drop { k, idle: 3_000_000 }));
+        g.push((Shape::Inference(2, 4, 1, false), 2, None, Fault::Drop { k, idle: 3_000_000 }));
+        g.push((Shape::Train(2, 4, 1, false), 2, Some(TRAIN_LINES), Fault::Drop { k, idle: 3_000_000 }));
+    }
     // ---- the real InferenceLoader: drop after k batches, upstream panic
     for k in [0usize, 1, 3] {
-        for idle in [0u16, 200] {
+        for idle in [0u32, 200] {
             for n in ups {
                 for w in [0u8, 1, 3] {
                     for b in [0usize, 2] {
@@ -118,7 +129,7 @@ pub fn grid() -> Vec<(Shape, u8, Option<usize>, Fault)> {
     }
     // ---- the real TrainLoader, abandoned mid-epoch (what `iter(train_loader)` does to the previous iterator)
     for k in [0usize, 1, 5] {
-        for idle in [0u16, 200] {
+        for idle in [0u32, 200] {
             for w in [0u8, 1, 3] {
                 for b in [0usize, 2] {
                     for (bl, pf, sort) in [(1usize, 1usize, false), (4, 3, true)] {
@@ -354,11 +365,12 @@ impl Scenario for C09 {
     fn execute(&self, plan: &Plan) -> Outcome {
         let mut spec = ProcSpec::new(self.mode.to_mode(), derive(self.run_seed, 100), derive(self.run_seed, 200));
         // generous: a correct run needs a few hundred decisions plus ~100 per consumed item
-        let consumed = match self.fault {
-            Fault::Drop { k, .. } => k as u64,
-            _ => 0,
+        let (consumed, idle) = match self.fault {
+            Fault::Drop { k, idle } => (k as u64, idle as u64),
+            _ => (0, 0),
         };
-        spec.step_cap = env_u64("VERIF_C09_CAP", 60_000 + 2_000 * consumed);
+        // a background thread that polls every 20 ticks during the pause costs two decisions per poll
+        spec.step_cap = env_u64("VERIF_C09_CAP", 60_000 + 2_000 * consumed + idle / 4);
         if let Plan::Replay { traces, strict } = plan {
             spec = spec.replaying(traces.first().cloned().unwrap_or_default(), *strict);
         }
@@ -666,7 +678,9 @@ impl C09 {
             match e.kind {
                 // TrainLoader: the upstream is a file; one virtual sleep of a background
                 // thread = one item processed by the Dummy tokenizer
-                Kind::Sleep if train && e.task != 0 => {
+                // (exactly one tick: the Dummy tokenizer's 10 us; other sleeps of background
+                // threads, e.g. a polling loop, are not items)
+                Kind::Sleep if train && e.task != 0 && e.a == 1 => {
                     pulls += 1;
                     if dropped_at.is_some() {
                         pulls_after_drop += 1;
